@@ -1,3 +1,4 @@
 CONSTANTS
+  Defects = {}
   Vals = {1, 2, 3, 4, 5}
 INVARIANTS TypeOK CacheCoherent StoredIsLastWritten
